@@ -162,3 +162,39 @@ class labelled_wire:
         comps = {c.id: c for c in result.components}
         return {'the labelled wire is a component between two different nodes': 'SC1' in comps and comps['SC1'].type == 'short_circuit' and eq(comps['SC1'].nodes, ('A', 'B')),
                 'its ends are not merged': eq(comps['I1'].nodes, ('0', 'A')) and eq(comps['R1'].nodes, ('B', '0'))}
+
+
+
+@contract('CircuitCalculator.SimpleCircuit.DiagramTranslator.circuit_translator', props=['C13'], name='retranslation_after_the_drawing_was_extended',
+          bounded='one drawing translated, extended by a wire, translated again', set_order_dependent_result=True)
+class retranslation:
+    """Translating the SAME drawing object again after it was extended reflects the extension (nothing about the first translation
+    is remembered): a resistor whose free end is wired to the ground rail afterwards ends on the reference node."""
+    frame = False
+
+    def inputs(g):
+        s = drawing([
+            place(elm.VoltageSource(name='V1', V=g.real('V')), (0, 0), (0, 3)),
+            place(elm.Line(), (0, 3), (3, 3)),
+            place(elm.Resistor(name='R1', R=g.pos('R1')), (3, 3), (3, 0)),
+            place(elm.Line(), (3, 0), (0, 0)),
+            place(elm.Resistor(name='R3', R=g.pos('R3')), (3, 3), (6, 3)),
+            place(elm.Ground(), (0, 0)),
+            place(elm.LabelNode(name='b'), (3, 3)),
+        ])
+        return dict(schematic=s)
+
+    def call(f, schematic):
+        first = f(schematic)
+        schematic.elements.append(place(elm.Line(), (6, 3), (6, 0)))
+        schematic.elements.append(place(elm.Line(), (6, 0), (3, 0)))
+        second = f(schematic)
+        return (first, second)
+
+    def ensures(result, schematic):
+        first, second = result
+        c1 = {c.id: c for c in first.components}
+        c2 = {c.id: c for c in second.components}
+        return {'before: the free end of R3 is a node of its own': c1['R3'].nodes[0] == 'b' and c1['R3'].nodes[1] != '0' and c1['R3'].nodes[1] != 'b',
+                'after: the end wired to the ground rail is the reference node': eq(c2['R3'].nodes, ('b', '0')),
+                'the rest is unchanged': eq(c2['R1'].nodes, c1['R1'].nodes) and eq(c2['V1'].nodes, c1['V1'].nodes)}
